@@ -104,7 +104,17 @@ TraceEndHistory ==
                /\ Within(h.np, NPos(src) * h.m, NPos(src) * h.m)
                /\ Within(h.nn, NNeg(src) * h.m, NNeg(src) * h.m)>>}))
 
-Next == TraceStart \/ TraceDraw \/ TraceBuilt \/ TraceEndHistory
+(* sampling_method given as a callable (any callable form): Bootstrap's custom mode - no RNG call *)
+(* of the library, the callable is applied once to the source and its value is the sample       *)
+TraceCallable ==
+  /\ IsEvent("Callable") /\ UNCHANGED <<run, hist>>
+  /\ LET e == Log[l] IN
+       Report(e, Failing({
+         <<"C11.raised", e.exc = "">>,
+         <<"C11.callable_sampler_is_applied_to_the_source_and_returned", e.exc # "" \/
+              (e.ncalls = 2 /\ e.called_with_source /\ e.returned_as_is)>>}))
+
+Next == TraceStart \/ TraceDraw \/ TraceBuilt \/ TraceEndHistory \/ TraceCallable
 Spec == Init /\ [][Next]_vars
 AllConsumed == TLCGet("stats").diameter - 1 = Len(Log)
 =============================================================================
